@@ -32,15 +32,15 @@ BASE_NOTE = ("Trusted: TLC and the CommunityModules Json reader, the TLA+ defini
              "by design-level MC_* models run inside the check), the Rust harness (no oracle logic: it builds inputs, calls the public API and serialises). ")
 
 CLAIMED = {
-    "C01": _c("Every construction program of the generated families (all of depth <= 1 over 18 atoms, stratified depth 2, second alphabet layout, semantically-empty family, seeded random depth <= 5; fresh and dirty managers; ReManager methods and re_* wrappers) is compared with the SMT-LIB denotation of its AST: TLC explores the product of the term's derivative graph (obtained by calling char_derivative/nullable) with the specification's residual automaton, which decides membership for ALL strings, plus str_in_re on all short words and the nullable flag. MC_Regex validates the residual automaton against the denotational semantics.",
+    "C01": _c("Every construction program of the generated families (all of depth <= 1 over 18 atoms, stratified depth 2, second alphabet layout, semantically-empty family, seeded random depth <= 5; fresh and dirty managers; ReManager methods and re_* wrappers) is compared with the SMT-LIB denotation of its AST: TLC explores the product of the term's derivative graph (obtained by calling char_derivative/nullable) with the specification's residual automaton, which decides membership for ALL strings, plus str_in_re on all short words and the nullable flag; every single constructor call on the real terms (trees read through an accessor hook) is also compared, exactly, with the SMT-LIB meaning of the call on the languages of its real arguments, and structurally (NOTE level) with the executable model of the constructors (Constructors.tla; MC_Constructors in the thorough tier). MC_Regex validates the residual automaton against the denotational semantics.",
               "5 C01, 2.4, App. A", BASE_NOTE + "Exact per generated case; the quantifier over programs is discharged by enumeration/sampling, not proof. Cases above a residual-automaton cost limit are checked on bounded words only.", T_PRODUCT),
     "C02": _c("Every automaton returned by compile / try_compile(Some) for the generated program families is dumped by calling next/is_final on one character per region (all 196608 characters for a sample) and explored in product with the residual automaton of the AST: language equality for all strings; totality of next, structural determinism/totality per state, counters and accepts/str_next folds are checked per case.",
               "5 C02", BASE_NOTE + "Exact per generated case (all strings; characters via regions, literally all characters on a sample).", T_PRODUCT),
-    "C03": _c("For the root and first derivatives of every generated term TLC spawns one product root per (derivative class, every representative character of the class incl. both end points), per accepted set [a,b] (both end points) and per str_derivative word: the returned term must be the left quotient for all continuations; class list covers the alphabet, BadClassId on invalid ids, set_derivative is defined exactly when the set lies in one class (set-theoretic cover over boundary points).",
+    "C03": _c("For the root and first derivatives of every generated term TLC spawns one product root per (derivative class, every representative character of the class incl. both end points), per accepted set [a,b] (both end points) and per str_derivative word: the returned term must be the left quotient for all continuations; class list covers the alphabet, BadClassId on invalid ids, set_derivative is defined exactly when the set lies in one class (set-theoretic cover over boundary points); every derivative step on real terms is additionally compared with the left quotient exactly and, one level at a time, with the model of compute_derivative (NOTE level).",
               "5 C03", BASE_NOTE + "Exact per case; sets range over all pairs of boundary points of the classes (+-1, 0, 0x2FFFF).", T_PRODUCT),
     "C04": _c("Every complete DFA with <= 3 states over 2 letters (TLC-enumerated by MC_Dfa, 5898) is built through AutomatonBuilder in three styles under block embeddings and minimized; plus seeded random DFAs (<= 12 states, <= 4 letters) and compiled automata. Per case TLC decides by fixpoints on the dumps: language preserved, no two result states Nerode-equivalent, result size = Myhill-Nerode index when all states are reachable, initial/final/counter consistency; a panic is a violation.",
               "5 C04", BASE_NOTE + "Exact per automaton; exhaustive to 3 states x 2 letters, sampled beyond.", T_GEN),
-    "C05": _c("is_empty_re and get_string (both call orders) on the generated families plus the semantically-empty family under two alphabet layouts; TLC decides emptiness of the AST exactly (reachability closure in the residual automaton) and checks the witness against the AST, membership test and compiled automaton.",
+    "C05": _c("is_empty_re and get_string (both call orders) on the generated families plus the semantically-empty family under two alphabet layouts, on derivatives after their root was searched, and in histories of queries on neighbouring terms of one manager (each asked twice); TLC decides emptiness of the AST exactly (reachability closure in the residual automaton) and checks the witness against the AST, membership test and compiled automaton.",
               "5 C05", BASE_NOTE + "Exact per case.", T_TRACE),
     "C06": _c("Every call of the ten string functions on subjects <= 4 / patterns <= 2(3) over two letters with boundary integers (i32::MIN..i32::MAX) and seeded random real strings is compared by TLC with the SMT-LIB 2.6 definitions transcribed in SmtStrings.tla (internal consistency of the definitions: MC_Strings).",
               "5 C06", BASE_NOTE + "Bounded small scope (functions compare characters only for equality) + random; not a proof over all strings.", T_TRACE),
